@@ -83,7 +83,7 @@ def match_brace(text, i, open_="{", close="}"):
 
 def find_fn(text, impl_pat, fn):
     """(params text, body text) of `fn <fn>` inside the first impl/trait block whose header matches impl_pat"""
-    for m in re.finditer(r"^(?:unsafe\s+)?(?:impl|pub\s+trait|trait)\b[^{;]*\{", text, flags=re.M):
+    for m in re.finditer(r"^(?:unsafe\s+)?(?:impl|pub\s+trait|trait)\b(?:[^{;\[]|\[[^\]]*\])*\{", text, flags=re.M):
         header = m.group(0)
         if not re.search(impl_pat, header):
             continue
@@ -510,7 +510,7 @@ def src_text(e):
     return "?"
 
 
-NOARG_STRUCTS = {"CompleteOnUnwind", "BufferedIter", "Taken"}
+NOARG_STRUCTS = {"CompleteOnUnwind", "BufferedIter", "Taken", "CounterNew", "SliceNew", "RangeNew", "VecNew", "ArrNew"}
 
 
 class Emitter:
@@ -626,6 +626,13 @@ class Emitter:
             if fn[0] == "id" and fn[1] in ("Some",):
                 l, a = self.ex(e[2][0], ind)
                 return l, "(some %s)" % a
+            if fn[0] == "path" and fn[1][-2:] == ["AtomicCounter", "new"] and not e[2]:
+                t = self.fresh()
+                return ["let %s ← NewCounter.new ()" % t], t
+            if fn[0] == "path" and fn[1] == ["Self", "ConIter", "new"] and getattr(self, "ctor_of", None) and len(e[2]) == 1:
+                l, a = self.ex(e[2][0], ind)
+                t = self.fresh()
+                return l + ["let %s ← %s.new %s" % (t, self.ctor_of, a)], t
             if fn[0] == "path" and fn[1][0] == "Self" and len(fn[1]) == 2 and e[2] and e[2][0] == ("id", "self"):
                 # UFCS <Self as Trait>::f(self, ..)  ==  self.f(..)
                 return self.ex(("mcall", ("id", "self"), fn[1][1], e[2][1:]), ind)
@@ -654,6 +661,8 @@ class Emitter:
                 fn = "%s.%s" % (self.ns, lid(name))
             elif rtxt in self.recv and name in self.recv[rtxt][1]:
                 fn = "%s.%s" % (self.recv[rtxt][0], lid(name))
+            elif name == "clone" and not args and rtxt in COUNTER_CLONE_RECV:
+                fn = "NewCounter.clone"
             elif name in COUNTER_FNS and self.ns != "Counter" and len(args) == COUNTER_ARITY[name]:
                 fn = "Counter.%s" % lid(name)      # the only object with these methods is the crate's AtomicCounter
             else:
@@ -1285,13 +1294,14 @@ def proj_of(t, k, n):
 # ---------------------------------------------------------------------------------------------------
 # targets
 
-def T(ns, file, impl_pat, fns, self_ty, params=None, recv=None, consts=None, extra_params=""):
+def T(ns, file, impl_pat, fns, self_ty, params=None, recv=None, consts=None, extra_params="", self_struct=None, ctor_of=None):
     return dict(ns=ns, file=file, impl=impl_pat, fns=fns, self_ty=self_ty, params=params or {}, recv=recv or {}, consts=consts or [],
-                extra=extra_params)
+                extra=extra_params, self_struct=self_struct, ctor_of=ctor_of)
 
 
 KNOWN = ["progress_and_get_begin_idx", "get", "fetch_n", "early_exit", "initial_len"]
 COUNTER_FNS = ["fetch_and_add", "fetch_and_increment", "current", "store", "swap"]
+COUNTER_CLONE_RECV = {"self.counter"}
 COUNTER_ARITY = {"fetch_and_add": 1, "fetch_and_increment": 0, "current": 0, "store": 1, "swap": 1}
 
 TARGETS = [
@@ -1328,6 +1338,26 @@ TARGETS = [
     T("Range", "iter/implementors/range.rs", r"ConcurrentIter for ConIterOfRange", ["try_get_len", "into_seq_iter", "next_id_and_value", "next_chunk", "skip_to_end"], "RangeSelf"),
     T("BufRange", "iter/buffered/range.rs", r"BufferedChunk<Idx> for BufferedRange", ["chunk_size", "pull"], "BufSelf",
       params={"iter": "RangeSelf"}, recv={"iter": "Range"}),
+]
+
+# construction and cloning (C19): a new iterator is its storage plus a fresh counter with an initial value
+CT = "iter/constructors/implementors/"
+TARGETS += [
+    T("NewCounter", "iter/atomic_counter.rs", r"impl AtomicCounter", ["new"], None, self_struct="CounterNew", params={}),
+    T("NewCounter", "iter/atomic_counter.rs", r"impl Clone for AtomicCounter", ["clone"], "CounterSelf", self_struct="CounterNew"),
+    T("NewSlice", "iter/implementors/slice.rs", r"impl<'a, T: Send \+ Sync> ConIterOfSlice", ["new"], None, self_struct="SliceNew", params={"slice": "SliceObj"}),
+    T("NewSlice", "iter/implementors/slice.rs", r"Clone for ConIterOfSlice", ["clone"], "SliceSelf", self_struct="SliceNew"),
+    T("NewRange", "iter/implementors/range.rs", r"impl<Idx> ConIterOfRange", ["new"], None, self_struct="RangeNew", params={"range": "RangeObj"}),
+    T("NewVec", "iter/implementors/vec.rs", r"impl<T: Send \+ Sync> ConIterOfVec", ["new"], None, self_struct="VecNew", params={"vec": "VecObj"}),
+    T("NewArr", "iter/implementors/array.rs", r"impl<const N: usize, T: Send \+ Sync> ConIterOfArray", ["new"], None, self_struct="ArrNew", params={"array": "ArrObj"}),
+    T("CtorVec", CT + "vec.rs", r"ConcurrentIterable for Vec<T>", ["con_iter"], "VecObj", ctor_of="NewSlice"),
+    T("CtorVec", CT + "vec.rs", r"IntoConcurrentIter for Vec<T>", ["into_con_iter"], "VecObj", ctor_of="NewVec"),
+    T("CtorArr", CT + "array.rs", r"ConcurrentIterable for \[T; N\]", ["con_iter"], "ArrObj", ctor_of="NewSlice"),
+    T("CtorArr", CT + "array.rs", r"IntoConcurrentIter for \[T; N\]", ["into_con_iter"], "ArrObj", ctor_of="NewArr"),
+    T("CtorSlice", CT + "slice.rs", r"ConcurrentIterable for &'a \[T\]", ["con_iter"], "SliceObj", ctor_of="NewSlice"),
+    T("CtorSlice", CT + "slice.rs", r"IntoConcurrentIter for &'a \[T\]", ["into_con_iter"], "SliceObj", ctor_of="NewSlice"),
+    T("CtorRange", CT + "range.rs", r"ConcurrentIterable for Range<Idx>", ["con_iter"], "RangeObj", ctor_of="NewRange"),
+    T("CtorRange", CT + "range.rs", r"IntoConcurrentIter for Range<Idx>", ["into_con_iter"], "RangeObj", ctor_of="NewRange"),
 ]
 
 # the non-blocking functions of the wrapper over an arbitrary Iterator (the ticket protocol itself -- spin loop, lazy
@@ -1750,6 +1780,17 @@ def main_loops():
     return report
 
 
+def ctor_facts():
+    """`#[derive(..)]` of the range iterator and the absence of a hand-written `Clone` for it"""
+    txt = strip_comments(open(os.path.join(SRC, "iter/implementors/range.rs")).read())
+    m = re.search(r"#\[derive\(([^)]*)\)\]\s*pub struct ConIterOfRange", txt)
+    ders = [d.strip() for d in m.group(1).split(",")] if m else []
+    manual = re.search(r"impl[^{;]*\bClone\s+for\s+ConIterOfRange", txt) is not None
+    return ("\n/-- the derives of `ConIterOfRange` (a derived `Clone` clones field by field) -/\n"
+            "def Range.derives : List String := [%s]\n\n/-- whether range.rs has a hand-written `impl Clone for ConIterOfRange` -/\n"
+            "def Range.manual_clone : Bool := %s\n" % (", ".join('"%s"' % d for d in ders), "true" if manual else "false"))
+
+
 def ns_functions():
     """namespace -> set of generated function names"""
     out = {}
@@ -1808,7 +1849,8 @@ def main():
             ast = P(toks).block()
             recv = {k: (v, nsf.get(v, set())) for k, v in t["recv"].items()}
             em = Emitter(t["ns"], nsf[t["ns"]], recv, t["consts"])
-            em.self_struct = "BufferedIterSelf" if t["ns"] == "BufferedIterNew" else None
+            em.self_struct = "BufferedIterSelf" if t["ns"] == "BufferedIterNew" else t.get("self_struct")
+            em.ctor_of = t.get("ctor_of")
             term = em.do_block(ast, 2)
             sig = ""
             for c in t["consts"]:
@@ -1817,6 +1859,8 @@ def main():
                 sig += " (self : %s)" % t["self_ty"]
             for (n, ty) in plist:
                 sig += " (%s : %s)" % (lid(n), ty)
+            if not sig:
+                sig = " (_ : Unit)"
             # calls of generated functions of const-generic kinds pass the constant along
             if t["consts"]:
                 for ns2, fns2 in nsf.items():
@@ -1849,6 +1893,8 @@ def main():
             return "Counter"
         if ns == "BufferedIterNew":
             return "New"
+        if ns.startswith("New") or ns.startswith("Ctor"):
+            return "Ctor"
         for g in ("Cloned", "Copied"):
             if g in ns:
                 return "Adapt"
@@ -1866,7 +1912,7 @@ def main():
         header = ("/- GENERATED by tools/rs2lean.py from the Rust sources on every run -- do not edit. -/\n"
                   "import Orx.RS.Prim\n" + "".join("import Orx.Generated.Arith%s\n" % d for d in gdeps[g]) +
                   "set_option linter.unusedVariables false\nnamespace Orx.Gen\nopen Orx Orx.RS\n\n")
-        body = header + "\n".join(text_of[n] for n in ns_) + "\nend Orx.Gen\n"
+        body = header + "\n".join(text_of[n] for n in ns_) + (ctor_facts() if g == "Ctor" else "") + "\nend Orx.Gen\n"
         path = os.path.join(gen_dir, "Arith%s.lean" % g)
         old = open(path).read() if os.path.exists(path) else None
         if old != body:
